@@ -866,6 +866,25 @@ theorem inv_sliceEnv (E : Env X) (R : RShape) (e : RIdx) : Inv R e E (sliceEnv E
   · intro m t ht
     exact ⟨⟨[], fun _ => t.get (bidxR t.shape e)⟩, by simp [sliceEnv, ht], fun _ => rfl⟩
 
+/-- element `e` of an output of the batched run is what the run on the slices at `e` computes -/
+theorem slice_output (I : Nat → List X → X) (p : List Op) (hwf : wfProg p = true) {E E' S' : Env X} {e : RIdx}
+    (hE : run I p E = some E') (hS : run I p (sliceEnv E e) = some S') {o : Nat} {t : T X} (ht : E'.ten o = some t)
+    (he : InRange e t.shape) : ∃ u, S'.ten o = some u ∧ t.get e = u.get [] := by
+  have inv := run_slice (R := t.shape) (e := e) I p hwf (inv_sliceEnv E t.shape e) hE hS
+  obtain ⟨u, hu, hrel⟩ := inv.rel o t ht
+  have h1 := hrel (expands_refl _)
+  rw [bidxR_self he] at h1
+  exact ⟨u, hu, h1.symm⟩
+
+theorem sliceEnv_noiseEnv (n : Nat) (old new : T X) (e : RIdx) :
+    sliceEnv (noiseEnv n old new) e = noiseEnv n (sliceT old e) (sliceT new e) := by
+  simp only [sliceEnv, noiseEnv, List.map_replicate]
+  congr 1
+  funext r
+  simp only [upd, sliceT, scalarT]
+  repeat' split
+  all_goals first | rfl | (exfalso; omega)
+
 /-! ### the shape part of a run decides success and every shape (`runS` is `run` with the contents forgotten) -/
 
 theorem abs_setT (E : Env X) (d : Nat) (t : T X) : (E.setT d t).abs = E.abs.setT d t.shape := by
@@ -1169,6 +1188,11 @@ theorem map_ite_some_none {α β : Type} (f : α → β) (c : Prop) [Decidable c
     (Option.map f (if c then some x else none) = some y) ↔ c ∧ f x = y := by
   by_cases h : c <;> simp [h]
 
+theorem or_of_ite_true {c q : Prop} [Decidable c] (h : if c then True else q) : c ∨ q := by
+  by_cases hc : c
+  · exact Or.inl hc
+  · exact Or.inr (by simpa [hc] using h)
+
 theorem map_bcastR_eq_some {β : Type} (f : RShape → β) (a b : RShape) (y : β) :
     (Option.map f (bcastR a b) = some y) ↔ ∃ r, bcastR a b = some r ∧ f r = y := Option.map_eq_some_iff
 
@@ -1196,6 +1220,7 @@ macro "bstep" : tactic =>
                | subst h1
                | (obtain ⟨hc, h1⟩ := h1; subst h1)
                | (obtain ⟨a, ha, h1⟩ := h1; subst h1)
+             try (obtain ⟨hcl, hcr⟩ := hc)
              try subst_vars))
 
 end FShapes
